@@ -1,5 +1,5 @@
 """Property id -> check function(prop, tier, replay) -> exit code."""
-from .checks import roundtrip, perturbed, expr, lifecycle
+from .checks import roundtrip, perturbed, expr, lifecycle, scopes, sourceform
 
 CHECKS = {}
 for _p in ("C01", "C02", "C10", "C17", "C18"):
@@ -8,3 +8,6 @@ for _p in ("C07", "C08", "C11", "C13", "C14", "C15"):
     CHECKS[_p] = perturbed.run
 CHECKS["C03"] = expr.run
 CHECKS["C09"] = lifecycle.run
+CHECKS["C16"] = scopes.run
+CHECKS["C04"] = sourceform.run
+CHECKS["C12"] = sourceform.run
